@@ -350,3 +350,182 @@ Proof.
   intros Hpi. unfold acc_relabelled, acc_samples, acc_k. cbn [snd Nat.eqb]. rewrite (relabelled_labels pi l t). unfold relabel.
   rewrite !map_map. apply map_ext. intros [p y]. cbn [fst snd]. rewrite (eqb_pi n pi Hpi). reflexivity.
 Qed.
+
+(* ------------------------------------------------------------------------------------------ *)
+(* C16: one-vs-rest decomposition                                                              *)
+(* ------------------------------------------------------------------------------------------ *)
+Definition ovr (c : Z) (ps : list (Z * Z)) : list (Z * Z) := map (fun py => (b2z (fst py =? c), b2z (snd py =? c))) ps.
+(* the binary problem "class c against the rest" as a batch for the BINARY functional forms (threshold 1) *)
+Definition ovr_batch (c : Z) (b : mcbatch) : binbatch :=
+  (map (fun p => b2z (p =? c)) (preds_spec (fst b)), map (fun y => b2z (y =? c)) (snd b)).
+Definition scalar (r : res) : xq := match r with RS x => x | _ => NaN end.
+
+Lemma tp_ovr c ps : tp 1 (ovr c ps) = tp c ps.
+Proof. unfold tp, ovr. rewrite cnt_map. apply cnt_ext. intros [p y]. cbn [fst snd]. rewrite !b2z_eq1. reflexivity. Qed.
+Lemma fp_ovr c ps : fp 1 (ovr c ps) = fp c ps.
+Proof. unfold fp, ovr. rewrite cnt_map. apply cnt_ext. intros [p y]. cbn [fst snd]. rewrite !b2z_eq1. reflexivity. Qed.
+Lemma fn_ovr c ps : fn 1 (ovr c ps) = fn c ps.
+Proof. unfold fn, ovr. rewrite cnt_map. apply cnt_ext. intros [p y]. cbn [fst snd]. rewrite !b2z_eq1. reflexivity. Qed.
+Lemma ovr_pairs c b : bin_pairs_spec 1 (ovr_batch c b) = ovr c (pairs_spec b).
+Proof.
+  unfold bin_pairs_spec, ovr_batch, ovr, pairs_spec. cbn [fst snd]. rewrite map_map, combine_map2. apply map_ext. intros [p y]. cbn [fst snd].
+  destruct (p =? c); reflexivity.
+Qed.
+Lemma ovr_valid c b : aligned b -> bin_valid (ovr_batch c b) = true.
+Proof.
+  unfold aligned, bin_valid, ovr_batch. cbn [fst snd]. rewrite <- preds_eq. intros H. rewrite !map_length, H, Nat.eqb_refl. cbn [andb].
+  apply forallb_forall. intros z Hz. apply in_map_iff in Hz as [y [<- _]]. destruct (y =? c); reflexivity.
+Qed.
+
+Lemma res_at_classes (g : Z -> xq) n c : inrange n c = true -> res_at (RV (map g (classes n))) c = g c.
+Proof. intros H. destruct (idx_in n c H) as [L E]. cbn [res_at]. rewrite nth_classes by exact L. rewrite E. reflexivity. Qed.
+
+(* per-class (average=None) value at class c = the BINARY functional on the one-vs-rest problem *)
+Theorem precision_per_class_is_binary n b c : inrange n c = true -> aligned b ->
+  RS (res_at (fn_of mcprec_spec (NoAvg, Some n) b) c) = fn_of binprec_spec 1 (ovr_batch c b).
+Proof.
+  intros Hc Hal. rewrite mcprec_algo_eq_spec by discriminate. rewrite (binprec_algo_eq_spec 1 _ (ovr_valid c b Hal)).
+  unfold mcprec_textbook, prf_spec_of, binprec_textbook. cbn [fst snd ncls]. rewrite res_at_classes by exact Hc.
+  rewrite ovr_pairs. unfold precision_c. rewrite tp_ovr, fp_ovr. reflexivity.
+Qed.
+Theorem recall_per_class_is_binary n b c : inrange n c = true -> aligned b ->
+  RS (res_at (fn_of mcrec_spec (NoAvg, Some n) b) c) = fn_of binrec_spec 1 (ovr_batch c b).
+Proof.
+  intros Hc Hal. rewrite mcrec_algo_eq_spec by (try exact Hal; discriminate). rewrite (binrec_algo_eq_spec 1 _ (ovr_valid c b Hal)).
+  unfold mcrec_textbook, prf_spec_of, binrec_textbook. cbn [fst snd ncls]. rewrite res_at_classes by exact Hc.
+  rewrite ovr_pairs. unfold recall_c. rewrite tp_ovr, fn_ovr. reflexivity.
+Qed.
+Theorem f1_per_class_is_binary n b c : inrange n c = true -> aligned b ->
+  RS (res_at (fn_of mcf1_spec (NoAvg, Some n) b) c) = fn_of binf1_spec 1 (ovr_batch c b).
+Proof.
+  intros Hc Hal. rewrite mcf1_algo_eq_spec by (try exact Hal; discriminate). rewrite (binf1_algo_eq_spec 1 _ (ovr_valid c b Hal)).
+  unfold mcf1_textbook, prf_spec_of, binf1_textbook. cbn [fst snd ncls]. rewrite res_at_classes by exact Hc.
+  rewrite ovr_pairs. unfold f1_c. rewrite tp_ovr, fp_ovr, fn_ovr. reflexivity.
+Qed.
+
+(* macro = unweighted mean of the binary one-vs-rest values over the classes present in predictions or labels *)
+Theorem precision_macro_is_mean_of_binary n b : aligned b ->
+  fn_of mcprec_spec (Macro, Some n) b
+  = RS (xmean (map (fun c => scalar (fn_of binprec_spec 1 (ovr_batch c b))) (filter (present (pairs_spec b)) (classes n)))).
+Proof.
+  intros Hal. rewrite mcprec_algo_eq_spec by discriminate. unfold mcprec_textbook, prf_spec_of, macro_of. cbn [fst snd ncls]. do 2 f_equal.
+  apply map_ext. intros c. rewrite (binprec_algo_eq_spec 1 _ (ovr_valid c b Hal)). unfold binprec_textbook, scalar. rewrite ovr_pairs.
+  unfold precision_c. rewrite tp_ovr, fp_ovr. reflexivity.
+Qed.
+Theorem recall_macro_is_mean_of_binary n b : aligned b ->
+  fn_of mcrec_spec (Macro, Some n) b
+  = RS (xmean (map (fun c => scalar (fn_of binrec_spec 1 (ovr_batch c b))) (filter (present (pairs_spec b)) (classes n)))).
+Proof.
+  intros Hal. rewrite mcrec_algo_eq_spec by (try exact Hal; discriminate). unfold mcrec_textbook, prf_spec_of, macro_of. cbn [fst snd ncls]. do 2 f_equal.
+  apply map_ext. intros c. rewrite (binrec_algo_eq_spec 1 _ (ovr_valid c b Hal)). unfold binrec_textbook, scalar. rewrite ovr_pairs.
+  unfold recall_c. rewrite tp_ovr, fn_ovr. reflexivity.
+Qed.
+Theorem f1_macro_is_mean_of_binary n b : aligned b ->
+  fn_of mcf1_spec (Macro, Some n) b
+  = RS (xmean (map (fun c => scalar (fn_of binf1_spec 1 (ovr_batch c b))) (filter (present (pairs_spec b)) (classes n)))).
+Proof.
+  intros Hal. rewrite mcf1_algo_eq_spec by (try exact Hal; discriminate). unfold mcf1_textbook, prf_spec_of, macro_of. cbn [fst snd ncls]. do 2 f_equal.
+  apply map_ext. intros c. rewrite (binf1_algo_eq_spec 1 _ (ovr_valid c b Hal)). unfold binf1_textbook, scalar. rewrite ovr_pairs.
+  unfold f1_c. rewrite tp_ovr, fp_ovr, fn_ovr. reflexivity.
+Qed.
+
+(* micro = the binary metric of the POOLED one-vs-rest problems (all classes' binary samples in one batch) *)
+Definition pooled (n : nat) (b : mcbatch) : binbatch :=
+  (flat_map (fun c => fst (ovr_batch c b)) (classes n), flat_map (fun c => snd (ovr_batch c b)) (classes n)).
+Lemma combine_flat_map {X A B} (f : X -> list A) (g : X -> list B) l : (forall x, List.length (f x) = List.length (g x)) ->
+  combine (flat_map f l) (flat_map g l) = flat_map (fun x => combine (f x) (g x)) l.
+Proof. intros H. induction l as [|x l IH]; [reflexivity|]. cbn [flat_map]. rewrite combine_app by apply H. rewrite IH. reflexivity. Qed.
+Lemma cnt_flat_map {X Y} (P : Y -> bool) (f : X -> list Y) l : cnt P (flat_map f l) = sumZ (map (fun x => cnt P (f x)) l).
+Proof. induction l as [|x l IH]; [reflexivity|]. cbn [flat_map map]. rewrite cnt_app, sumZ_cons, IH. reflexivity. Qed.
+Lemma map_flat_map' {X A B} (h : A -> B) (f : X -> list A) l : map h (flat_map f l) = flat_map (fun x => map h (f x)) l.
+Proof. induction l as [|x l IH]; [reflexivity|]. cbn [flat_map]. rewrite map_app, IH. reflexivity. Qed.
+Lemma pooled_pairs n b : aligned b -> bin_pairs_spec 1 (pooled n b) = flat_map (fun c => ovr c (pairs_spec b)) (classes n).
+Proof.
+  intros Hal. unfold bin_pairs_spec, pooled. cbn [fst snd]. rewrite map_flat_map'.
+  rewrite combine_flat_map.
+  - apply flat_map_ext. intros c. apply (ovr_pairs c b).
+  - intros c. unfold ovr_batch. cbn [fst snd]. unfold aligned in Hal. rewrite <- preds_eq, !map_length. exact Hal.
+Qed.
+Lemma sum_cnt_classes n (Q : Z -> Z * Z -> bool) (R : Z * Z -> bool) ps :
+  (forall py, In py ps -> sumZ (map (fun c => b2z (Q c py)) (classes n)) = b2z (R py)) ->
+  sumZ (map (fun c => cnt (Q c) ps) (classes n)) = cnt R ps.
+Proof.
+  induction ps as [|py ps IH]; intros H.
+  - cbn [map]. clear. induction (classes n) as [|c l IHl]; [reflexivity|]. cbn [map]. rewrite sumZ_cons, IHl. reflexivity.
+  - rewrite cnt_cons, <- IH, <- (H py) by (try (left; reflexivity); intros q Hq; apply H; right; exact Hq).
+    rewrite (sumZ_map_ext_le _ (fun c => 1 * b2z (Q c py) + cnt (Q c) ps)) by (intros c; rewrite cnt_cons; lia).
+    rewrite sumZ_lin. lia.
+Qed.
+Lemma sumZ_zero {X} (l : list X) : sumZ (map (fun _ => 0) l) = 0.
+Proof. induction l as [|x l IH]; [reflexivity|]. cbn [map]. rewrite sumZ_cons, IH. reflexivity. Qed.
+Lemma sum_tp n ps : forallb (inrange n) (map snd ps) = true -> sumZ (map (fun c => tp c ps) (classes n)) = n_correct ps.
+Proof.
+  intros H. apply sum_cnt_classes. intros [p y] Hin. cbn [fst snd]. rewrite forallb_forall in H.
+  assert (Hy : inrange n y = true) by (apply H, in_map_iff; exists (p, y); auto).
+  destruct (Z.eqb_spec p y) as [->|E].
+  - rewrite (sumZ_map_ext_le _ (fun c => b2z (y =? c))) by (intros c; rewrite andb_diag; reflexivity). apply sum_onehot, Hy.
+  - rewrite (sumZ_map_ext_le _ (fun _ => 0)); [apply sumZ_zero|]. intros c. destruct (Z.eqb_spec p c), (Z.eqb_spec y c); try reflexivity. lia.
+Qed.
+Lemma sum_fn n ps : forallb (inrange n) (map snd ps) = true -> sumZ (map (fun c => fn c ps) (classes n)) = cnt (fun py => negb (fst py =? snd py)) ps.
+Proof.
+  intros H. apply sum_cnt_classes. intros [p y] Hin. cbn [fst snd]. rewrite forallb_forall in H.
+  assert (Hy : inrange n y = true) by (apply H, in_map_iff; exists (p, y); auto).
+  destruct (Z.eqb_spec p y) as [->|E]; cbn [negb b2z].
+  - rewrite (sumZ_map_ext_le _ (fun _ => 0)); [apply sumZ_zero|]. intros c. destruct (y =? c); reflexivity.
+  - rewrite (sumZ_map_ext_le _ (fun c => b2z (y =? c))); [apply sum_onehot, Hy|]. intros c.
+    destruct (Z.eqb_spec p c), (Z.eqb_spec y c); try reflexivity. lia.
+Qed.
+Lemma sum_fp n ps : forallb (inrange n) (map fst ps) = true -> sumZ (map (fun c => fp c ps) (classes n)) = cnt (fun py => negb (fst py =? snd py)) ps.
+Proof.
+  intros H. apply sum_cnt_classes. intros [p y] Hin. cbn [fst snd]. rewrite forallb_forall in H.
+  assert (Hp : inrange n p = true) by (apply H, in_map_iff; exists (p, y); auto).
+  destruct (Z.eqb_spec p y) as [->|E]; cbn [negb b2z].
+  - rewrite (sumZ_map_ext_le _ (fun _ => 0)); [apply sumZ_zero|]. intros c. destruct (y =? c); reflexivity.
+  - rewrite (sumZ_map_ext_le _ (fun c => b2z (p =? c))); [apply sum_onehot, Hp|]. intros c.
+    destruct (Z.eqb_spec p c), (Z.eqb_spec y c); try reflexivity. lia.
+Qed.
+Lemma correct_plus_wrong ps : n_correct ps + cnt (fun py : Z * Z => negb (fst py =? snd py)) ps = lenZ ps.
+Proof. unfold n_correct. rewrite <- cnt_true, (cnt_split (fun _ => true) (fun py : Z * Z => fst py =? snd py)). reflexivity. Qed.
+Lemma pooled_valid n b : aligned b -> bin_valid (pooled n b) = true.
+Proof.
+  intros Hal. unfold bin_valid, pooled. cbn [fst snd]. apply andb_true_intro. split.
+  - apply Nat.eqb_eq. induction (classes n) as [|c l IH]; [reflexivity|]. cbn [flat_map]. rewrite !app_length, IH. f_equal.
+    unfold ovr_batch. cbn [fst snd]. unfold aligned in Hal. rewrite <- preds_eq, !map_length. exact Hal.
+  - apply forallb_forall. intros z Hz. apply in_flat_map in Hz as [c [_ Hz]]. unfold ovr_batch in Hz. cbn [snd] in Hz.
+    apply in_map_iff in Hz as [y [<- _]]. destruct (y =? c); reflexivity.
+Qed.
+Definition labels_ok (n : nat) (b : mcbatch) : Prop :=
+  aligned b /\ forallb (inrange n) (map fst (pairs_spec b)) = true /\ forallb (inrange n) (map snd (pairs_spec b)) = true.
+Lemma pooled_counts n b : labels_ok n b ->
+  let P := bin_pairs_spec 1 (pooled n b) in let ps := pairs_spec b in
+  tp 1 P = n_correct ps /\ fp 1 P = lenZ ps - n_correct ps /\ fn 1 P = lenZ ps - n_correct ps.
+Proof.
+  intros [Hal [Hp Hy]]. cbv zeta. rewrite (pooled_pairs n b Hal). set (ps := pairs_spec b) in *. pose proof (correct_plus_wrong ps) as Hcw.
+  unfold tp at 1, fp at 1, fn at 1. rewrite !cnt_flat_map. fold (tp 1). fold (fp 1). fold (fn 1).
+  rewrite (sumZ_map_ext_le _ (fun c => tp c ps)) by (intros c; apply tp_ovr).
+  rewrite (sumZ_map_ext_le (fun c => fp 1 (ovr c ps)) (fun c => fp c ps)) by (intros c; apply fp_ovr).
+  rewrite (sumZ_map_ext_le (fun c => fn 1 (ovr c ps)) (fun c => fn c ps)) by (intros c; apply fn_ovr).
+  rewrite (sum_tp n ps Hy), (sum_fp n ps Hp), (sum_fn n ps Hy). lia.
+Qed.
+Theorem precision_micro_is_pooled_binary n b : labels_ok n b ->
+  fn_of mcprec_spec (Micro, Some n) b = fn_of binprec_spec 1 (pooled n b).
+Proof.
+  intros H. destruct (pooled_counts n b H) as [Ht [Hf _]]. destruct H as [Hal _].
+  rewrite mcprec_algo_eq_spec by discriminate. rewrite (binprec_algo_eq_spec 1 _ (pooled_valid n b Hal)).
+  unfold mcprec_textbook, prf_spec_of, binprec_textbook, micro_spec, precision_c. cbn [fst]. rewrite Ht, Hf. do 2 f_equal. lia.
+Qed.
+Theorem recall_micro_is_pooled_binary n b : labels_ok n b ->
+  fn_of mcrec_spec (Micro, Some n) b = fn_of binrec_spec 1 (pooled n b).
+Proof.
+  intros H. destruct (pooled_counts n b H) as [Ht [_ Hf]]. destruct H as [Hal _].
+  rewrite mcrec_algo_eq_spec by (try exact Hal; discriminate). rewrite (binrec_algo_eq_spec 1 _ (pooled_valid n b Hal)).
+  unfold mcrec_textbook, prf_spec_of, binrec_textbook, micro_spec, recall_c. cbn [fst]. rewrite Ht, Hf. do 2 f_equal. lia.
+Qed.
+Theorem f1_micro_is_pooled_binary n b : labels_ok n b ->
+  fn_of mcf1_spec (Micro, Some n) b = fn_of binf1_spec 1 (pooled n b).
+Proof.
+  intros H. destruct (pooled_counts n b H) as [Ht [Hp Hf]]. destruct H as [Hal _].
+  rewrite mcf1_algo_eq_spec by (try exact Hal; discriminate). rewrite (binf1_algo_eq_spec 1 _ (pooled_valid n b Hal)).
+  unfold mcf1_textbook, prf_spec_of, binf1_textbook, micro_spec, f1_c. cbn [fst]. rewrite Ht, Hp, Hf. f_equal.
+  rewrite <- (ratio0_double (n_correct (pairs_spec b)) (lenZ (pairs_spec b))). f_equal. lia.
+Qed.
